@@ -160,6 +160,8 @@ def replay(o, tree):
             import shutil
             shutil.rmtree(d, ignore_errors=True)
     cfg = o.get("cfg") or {}
+    if cfg.get("kind") == "concat":
+        return deferred_c.replay_concat(cfg, tree)
     if cfg.get("kind") == "linkfiles":
         # 1..3 linked files whose statements are all known as they are read (base given up front) or not; every label followed by
         # '.word <itself>' must find its own address in the image
